@@ -23,7 +23,16 @@ pub enum Case {
     /// J5 such that the model angle q5 = k*pi + delta
     Detect { robot: RobotSpec, j: [f64; 6], k: i8, delta: f64, layers: Vec<Layer> },
     /// q5 = 0 exactly; previous = the joints with J4/J6 perturbed by d4/d6
-    Continuity { robot: RobotSpec, j: [f64; 6], d4: f64, d6: f64 },
+    /// lim: optional limits. J1..J3, J5 whole circle; J4 and J6 an arc centred at the previous value, half width = |d4|+|d6|+0.2 + u*(2.9-that),
+    /// written as from<to (form 0), in the wrap-around form from>to (1), or a whole turn up/down (2, 3)
+    Continuity {
+        robot: RobotSpec,
+        j: [f64; 6],
+        d4: f64,
+        d6: f64,
+        #[serde(default)]
+        lim: Option<(f64, u8)>,
+    },
 }
 
 fn delta_value(i: usize, neg: bool) -> f64 {
@@ -50,6 +59,14 @@ fn detect(robot: &RobotSpec, j: &[f64; 6], k: i8, delta: f64, layers: &[Layer], 
         None
     };
     let kin = build_stack(Arc::new(opw(robot)), layers);
+    if k % 2 != 0 {
+        // call history: a robot with the opposite J5 convention (and a shifted J5 offset) is asked about the same joints first
+        let mut o = *robot;
+        o.signs[4] = -o.signs[4];
+        o.offsets[4] += 0.3;
+        let _ = no_panic(|| opw(&o).kinematic_singularity(&jj)).map_err(|m| viol!("no panic", "kinematic_singularity (other robot): {}", m))?;
+        ctx.class("detect:history another robot asked about the same joints first");
+    }
     let got = no_panic(|| kin.kinematic_singularity(&jj)).map_err(|m| viol!("no panic", "kinematic_singularity: {}", m))?;
     let got_b = matches!(got, Some(Singularity::A));
     match expect {
@@ -221,14 +238,19 @@ impl Property for C05 {
             j[5] += w6;
             j
         });
-        let cont = (robot_sane(DofChoice::Six), cont_joints, prop_oneof![2 => Just((0.0, 0.0)), 1 => (Just(0.0), -1.0..1.0f64), 1 => (-1.0..1.0f64, Just(0.0)), 3 => (-1.0..1.0f64, -1.0..1.0f64)])
-            .prop_map(|(robot, j, (d4, d6))| Case::Continuity { robot, j, d4, d6 });
+        let cont = (
+            robot_sane(DofChoice::Six),
+            cont_joints,
+            prop_oneof![2 => Just((0.0, 0.0)), 1 => (Just(0.0), -1.0..1.0f64), 1 => (-1.0..1.0f64, Just(0.0)), 3 => (-1.0..1.0f64, -1.0..1.0f64)],
+            prop_oneof![2 => Just(None), 1 => (0.0..1.0f64, 0u8..4).prop_map(Some)],
+        )
+            .prop_map(|(robot, j, (d4, d6), lim)| Case::Continuity { robot, j, d4, d6, lim });
         prop_oneof![3 => detect, 2 => cont].boxed()
     }
     fn check(&self, c: &Case, ctx: &mut Ctx) -> Res {
         match c {
             Case::Detect { robot, j, k, delta, layers } => detect(robot, j, *k, *delta, layers, ctx),
-            Case::Continuity { robot: r, j, d4, d6 } => {
+            Case::Continuity { robot: r, j, d4, d6, lim } => {
                 let q = wrist_joints(r, j, 0, 0.0); // model q5 = 0 exactly: J5 = offset5 * sign5
                 // conditioning of the arm posture
                 let sigma = arm_conditioning(r, &q);
@@ -250,11 +272,11 @@ impl Property for C05 {
                     ctx.exclude("continuity: elbow/shoulder margin");
                     return Ok(());
                 }
-                let k = opw(r);
+                let k0 = opw(r);
                 let pose = r.fk(&q);
                 let na = to_na(&pose);
                 // no other arm branch simultaneously (near) wrist-singular
-                let plain = no_panic(|| k.inverse(&na)).map_err(|m| viol!("no panic", "inverse: {}", m))?;
+                let plain = no_panic(|| k0.inverse(&na)).map_err(|m| viol!("no panic", "inverse: {}", m))?;
                 let same_arm = |s: &[f64; 6]| (0..3).all(|t| circ_dist(s[t], q[t]) < 1e-4);
                 for s in &plain {
                     if !same_arm(s) {
@@ -268,6 +290,29 @@ impl Property for C05 {
                 let mut prev = q;
                 prev[3] += d4;
                 prev[5] += d6;
+                // optional limits that admit the previous joints, the posture and everything in between on J4 / J6
+                let k = match lim {
+                    None => k0,
+                    Some((u, form)) => {
+                        let wmin = d4.abs() + d6.abs() + 0.2;
+                        let w = wmin + u * (2.9 - wmin);
+                        let mut from = [-3.3; 6];
+                        let mut to = [3.3; 6];
+                        for t in [3usize, 5] {
+                            let (lo, hi) = (prev[t] - w, prev[t] + w);
+                            let (f, tt) = match form % 4 {
+                                0 => (lo, hi),
+                                1 => (lo + TWO_PI, hi), // the same arc in the documented wrap-around form (from > to)
+                                2 => (lo + TWO_PI, hi + TWO_PI),
+                                _ => (lo - TWO_PI, hi - TWO_PI),
+                            };
+                            from[t] = f;
+                            to[t] = tt;
+                        }
+                        ctx.class(["continuity:limits from<to", "continuity:limits in wrap-around form", "continuity:limits a turn up", "continuity:limits a turn down"][(form % 4) as usize]);
+                        opw_c(r, rs_opw_kinematics::constraints::Constraints::new(from, to, 0.0))
+                    }
+                };
                 let sols = no_panic(|| k.inverse_continuing(&na, &prev)).map_err(|m| viol!("no panic", "inverse_continuing: {}", m))?;
                 ensure!(!sols.is_empty(), "a wrist-singular pose realised by the previous joints has a continuation answer", "no answers for q={:?}", q);
                 for s in &sols {
